@@ -36,6 +36,10 @@ pub enum AOp {
     FlagWaitBlocking(usize),
     /// race two flag waits, drop the loser
     Select2(usize, usize),
+    /// wait for flag a with a future whose every poll registers its waker for a, then runs a
+    /// nested block_on that waits for flag b (and really sleeps if b is not set yet), then returns
+    /// Pending: a wake for a can arrive while the task is asleep inside the nested executor loop
+    FlagWaitNested(usize, usize),
     YieldNow,
     /// wake own waker during poll and return Pending once
     SelfWake,
@@ -127,6 +131,26 @@ impl Future for FlagWait {
             // the registration, so this is race free on a sequentially consistent runtime.
             Poll::Pending
         }
+    }
+}
+
+struct FlagWaitNested {
+    ctx: Arc<Ctx>,
+    a: usize,
+    b: usize,
+}
+impl Future for FlagWaitNested {
+    type Output = ();
+    fn poll(self: Pin<&mut Self>, cx: &mut Context<'_>) -> Poll<()> {
+        let fl = &self.ctx.flags[self.a];
+        if fl.set.load(Ordering::SeqCst) {
+            return Poll::Ready(());
+        }
+        fl.wakers.lock().unwrap().push(cx.waker().clone());
+        log("NS", self.a.to_string(), self.b.to_string());
+        shuttle::future::block_on(FlagWait { ctx: self.ctx.clone(), f: self.b, register_first: true });
+        log("NE", self.a.to_string(), self.b.to_string());
+        Poll::Pending
     }
 }
 
@@ -284,6 +308,10 @@ fn run_ops(ctx: Arc<Ctx>, body: usize, ops: Vec<AOp>, prefix: String) -> Pin<Box
                         futures::future::Either::Right(_) => "second".into(),
                     }
                 }
+                AOp::FlagWaitNested(a, b) => {
+                    FlagWaitNested { ctx: ctx.clone(), a: *a, b: *b }.await;
+                    "".into()
+                }
                 AOp::YieldNow => {
                     shuttle::future::yield_now().await;
                     "".into()
@@ -372,6 +400,10 @@ fn gen_ops(rng: &mut Rng, flags: usize, children: &[usize], thread_children: &[u
         let k = rng.below(16);
         let op = match k {
             0 | 1 if flags > 0 => AOp::FlagWait(rng.below(flags), rng.chance(1, 2)),
+            2 if flags > 1 && rng.chance(1, 2) => {
+                let a = rng.below(2);
+                AOp::FlagWaitNested(a, 1 - a)
+            }
             2 if flags > 0 => AOp::FlagWaitBlocking(rng.below(flags)),
             3 | 4 | 5 if flags > 0 => AOp::FlagSet(rng.below(flags)),
             6 if flags > 1 => AOp::Select2(0, 1),
@@ -648,6 +680,17 @@ fn check_exec(p: &AProg, ex: &ExecTrace, ending: &Ending, out: &mut RunOut, cj: 
         Some(match suspended_in(b)? {
             AOp::FlagWait(f, _) | AOp::FlagWaitBlocking(f) => flag_set_at_end[f],
             AOp::Select2(f, g) => flag_set_at_end[f] || flag_set_at_end[g],
+            AOp::FlagWaitNested(a, bb) => {
+                // asleep inside the nested block_on (NS without NE): waits for b; otherwise the
+                // outer future returned Pending with its waker registered for a
+                let t = tid_of.get(&b)?;
+                let in_nested = ex.events.iter().rev().find(|e| e.task == *t && (e.kind == "NS" || e.kind == "NE")).map(|e| e.kind == "NS").unwrap_or(false);
+                if in_nested {
+                    flag_set_at_end[bb]
+                } else {
+                    flag_set_at_end[a]
+                }
+            }
             AOp::PendingForever => false,
             AOp::Await(s) => child_in_slot(b, s).map(|c| finished(c)).unwrap_or(false),
             AOp::ThreadBlockOn(_) | AOp::NestedBlockOn(_) => return None,
@@ -683,7 +726,7 @@ fn check_exec(p: &AProg, ex: &ExecTrace, ending: &Ending, out: &mut RunOut, cj: 
                     if !finished(*c) && !mid_poll {
                         if let Some(t) = tid_of.get(c) {
                             if ids.contains(t) {
-                                let nested = p.bodies[*c].iter().any(|o| matches!(o, AOp::NestedBlockOn(_)));
+                                let nested = p.bodies[*c].iter().any(|o| matches!(o, AOp::NestedBlockOn(_) | AOp::FlagWaitNested(..)));
                                 v(
                                     if nested { "known:F25:wake-during-nested-block_on-is-lost" } else { "aborted-task-never-cancelled" },
                                     format!("abort() of body {} returned at event {} but the execution deadlocked with that task still pending (suspended in {:?}); an abort must wake its target so that it is cancelled", c, a, suspended_in(*c)),
@@ -751,10 +794,10 @@ pub fn check() -> Check {
     Check {
         id: "C17",
         level: "exploration",
-        rule: "per run: a seeded async program (2-4 futures spawned with shuttle::future::spawn or run by block_on in extra threads; hand-written waker futures that register before/after checking and are woken from other tasks, self-waking futures, futures that return Pending without a waker, select with the loser dropped, nested block_on, yield_now, a JoinHandle polled once under a throw-away waker before it is awaited, task-locals whose destructors have scheduling points) with faults abort (also repeated, through AbortHandle, before the first poll / while sleeping / after completion) and detach (drop of the JoinHandle) at drawn points; every task future is wrapped to log poll starts/ends, completion and drop. Oracle: result delivered exactly once and truthfully; Cancelled iff the abort took effect before completion (no poll starts after abort() returned; a poll already in progress may complete); a cancelled future is dropped and performs no further step; nobody's future is dropped without an abort; the final verdict is exact: a task listed in a deadlock report must be suspended in an operation whose wake-up condition does not hold. Distinct = (program, chosen sequence); non-trivial = at least one switch",
+        rule: "per run: a seeded async program (2-4 futures spawned with shuttle::future::spawn or run by block_on in extra threads; hand-written waker futures that register before/after checking and are woken from other tasks, self-waking futures, futures that return Pending without a waker, select with the loser dropped, nested block_on, a future that registers its waker and then sleeps in a nested block_on within the same poll (outer wake arriving during the nested loop), yield_now, a JoinHandle polled once under a throw-away waker before it is awaited, task-locals whose destructors have scheduling points) with faults abort (also repeated, through AbortHandle, before the first poll / while sleeping / after completion) and detach (drop of the JoinHandle) at drawn points; every task future is wrapped to log poll starts/ends, completion and drop. Oracle: result delivered exactly once and truthfully; Cancelled iff the abort took effect before completion (no poll starts after abort() returned; a poll already in progress may complete); a cancelled future is dropped and performs no further step; nobody's future is dropped without an abort; the final verdict is exact: a task listed in a deadlock report must be suspended in an operation whose wake-up condition does not hold. Distinct = (program, chosen sequence); non-trivial = at least one switch",
         assumptions: &["step-level enabledness of async tasks is not modelled; lost wake-ups are detected at the end of the execution (the task stays pending although its condition holds)", "futures moved between tasks after their first poll are covered by C18 (SemCancel) and C19"],
         real_components: "real: shuttle-engine executor (Task::from_future, wakers, sleep_unless_woken, block_on), shuttle-std future (spawn, JoinHandle, AbortHandle, Wrapper); stub: none",
-        batches: |t: Tier| vec![Batch::new("async", t.pick(20000, 400000), 400), Batch::new("known", 4, 4)],
+        batches: |t: Tier| vec![Batch::new("async", t.pick(20000, 400000), 400), Batch::new("nestedwake", t.pick(400, 8000), 100), Batch::new("known", 4, 4)],
         run: |b, i, seed, _t| {
             let mut rng = Rng::new(seed);
             let mut out = RunOut::default();
@@ -770,6 +813,20 @@ pub fn check() -> Check {
                 };
                 let mut sim = SimCfg::new(3130958313277173833 + i);
                 sim.policy = crate::sim::Policy::RoundRobin;
+                check_case(&Case { prog, sim }, &mut out);
+                return out;
+            }
+            if b == "nestedwake" {
+                // directed: the outer waker (flag 0) is invoked while the task is asleep inside the
+                // nested block_on (waiting for flag 1); the setter runs as a task or as a thread
+                let setter = vec![AOp::FlagSet(0), AOp::YieldNow, AOp::FlagSet(1)];
+                let prog = match i % 3 {
+                    0 => AProg { flags: 2, bodies: vec![[vec![AOp::Spawn(1)], setter, vec![AOp::Await(0)]].concat(), vec![AOp::FlagWaitNested(0, 1)]] },
+                    1 => AProg { flags: 2, bodies: vec![vec![AOp::Spawn(1), AOp::Spawn(2), AOp::Await(0), AOp::Await(1)], vec![AOp::FlagWaitNested(0, 1), AOp::YieldNow], setter] },
+                    _ => AProg { flags: 2, bodies: vec![vec![AOp::Spawn(1), AOp::Spawn(2), AOp::Await(1), AOp::Await(0)], vec![AOp::YieldNow, AOp::FlagWaitNested(1, 0)], vec![AOp::FlagSet(1), AOp::TlsTouch(1), AOp::FlagSet(0)]] },
+                };
+                let mut sim = SimCfg::new(rng.next_u64());
+                sim.policy = random_policy(&mut rng);
                 check_case(&Case { prog, sim }, &mut out);
                 return out;
             }
